@@ -9,7 +9,6 @@ import (
 	"strings"
 	"sync"
 	"sync/atomic"
-	"time"
 
 	"github.com/anishathalye/porcupine"
 	hessian "github.com/vogo/gohessian"
@@ -29,7 +28,7 @@ func (c17) Rule() string {
 	return "Get/Return by 1..64 goroutines on pools of size 0..8 from all three constructors, op mixes {get-heavy, return-heavy, balanced, bursts}; every call is recorded at the client boundary (call/return sequence numbers from one atomic counter, object identity = pointer, first-sight flag). Online: ownership table with CAS (double hand-out). Offline over the event log: conservation (every non-fresh Get matched to a distinct earlier-started Return), drain after quiescence <= size without duplicates, linearizability of many short histories against a nondeterministic set model as weak as the statement (porcupine), blocking decided by Return-only / Get-only phases in a timer-free goroutine set (runtime deadlock detector), fresh objects round-trip. The concurrent phases also run on the -race worker. Non-trivial = history with >= 2 goroutines; distinct by (constructor, size, goroutines, mix, seed)."
 }
 func (c17) NeedsRace(string) bool { return true }
-func (c17) ProcOpts() Proc        { return Proc{StallSec: 300} }
+func (c17) ProcOpts() Proc        { return Proc{StallSec: 30} }
 
 func (c17) Cases(tier string, seed int64, kf *KnownFindings) []Case {
 	var cs []Case
@@ -552,7 +551,9 @@ func c17lin(c Case, env *Env, res *Result, feats []string, tm map[string]reflect
 		res.Count("histories_checked", 1)
 		res.Count("history_ops", int64(len(ops)))
 		res.Max("history_clients", int64(clients))
-		r1, _ := porcupine.CheckOperationsVerbose(model, ops, 20*time.Second)
+		// no timeout = no pending timer in the worker, so that the runtime's deadlock detector stays
+		// effective for the blocking phases; histories are tiny (<= 8 clients x 12 ops)
+		r1, _ := porcupine.CheckOperationsVerbose(model, ops, 0)
 		cc := c
 		cc.Sub = j
 		switch r1 {
